@@ -150,9 +150,14 @@ pub fn fmt_number(v: f64, d: Dialect) -> String {
     if v.is_infinite() {
         return if v > 0.0 { "inf".to_string() } else { "-inf".to_string() };
     }
+    let b51 = fmt_g_abs(v.abs(), 14, false, false);
+    let bluau = fmt_shortest_abs(v.abs());
+    if b51 != bluau {
+        super::note_dialect_event(0);
+    }
     let body = match d {
-        Dialect::Lua51 => fmt_g_abs(v.abs(), 14, false, false),
-        Dialect::Luau => fmt_shortest_abs(v.abs()),
+        Dialect::Lua51 => b51,
+        Dialect::Luau => bluau,
     };
     if v.is_sign_negative() {
         format!("-{}", body)
